@@ -45,7 +45,7 @@ def _convert(lines):
             pflags, pcnt = {}, {}
             out.append({'kind': 'run', 'run': r['run']})
         elif 'end' in r:
-            out.append({'kind': 'end', 'run': r['end'], 'clean': bool(r['clean'])})
+            out.append({'kind': 'end', 'run': r['end'], 'clean': bool(r['clean']), 'quiet': not r.get('overrun', False)})
         elif 't' in r:
             for kind, a, b in r['obs']:
                 if kind == 'start':
@@ -119,7 +119,8 @@ TraceNext == \\/ /\\ SilentPending
                 /\\ l' = l + 1
                 /\\ wasBlocked' = (wasBlocked \\cup BlockedNow) \\ {Rec[l].t}
 TraceSpec == TraceInit /\\ [][TraceNext]_<<vars, l, wasBlocked>>
-AtEnd == l <= Len(Rec) /\\ Rec[l].kind = "end" /\\ ~SilentPending /\\ PrevMatches
+\\* the recorded run stopped because no thread could take a step (unless it hit the step limit): then no process of the specification can either
+AtEnd == l <= Len(Rec) /\\ Rec[l].kind = "end" /\\ ~SilentPending /\\ PrevMatches /\\ (Rec[l].quiet => \\A p \\in Procs : ~ENABLED ProcStep(p))
 EndViol == IF AtEnd THEN ObsQuiescent(h, QS, MC_Single).viol ELSE {}
 DebugL == IF "DEBUGL" \\in DOMAIN IOEnv THEN IOEnv.DEBUGL ELSE "0"
 Collect == /\\ TLCSet(2, TLCGet(2) \\cup {l})
